@@ -367,8 +367,22 @@ def run_property(spec: PropertySpec, tier: str, seed: int) -> int:
     if build_ok or DRIVER.exists():
         try:
             outcome = spec.run(tier, seed, 1)
-        except Exception:
-            crashed = traceback.format_exc()
+        except Exception as e:
+            tb = traceback.extract_tb(e.__traceback__)
+            in_impl = [f for f in tb if f.filename.startswith('/repo/')]
+            if in_impl and not isinstance(e, LeanError):
+                # the implementation raised on an input of the property's domain, outside any guarded call:
+                # that is a failure of the property (the operation must be total there), not of the harness
+                last = in_impl[-1]
+                outcome = Outcome()
+                outcome.evaluations = 1
+                outcome.fail('property', 'implementation-raised',
+                             {'exception': f'{type(e).__name__}: {str(e)[:300]}', 'where': f'{last.filename}:{last.lineno} in {last.name}',
+                              'traceback': traceback.format_exc()[-3000:], 'tier': tier, 'seed': seed},
+                             expected='no exception', observed=type(e).__name__,
+                             note='re-run the check with the same seed to reproduce')
+            else:
+                crashed = traceback.format_exc()
     else:
         crashed = 'driver not available'
 
